@@ -321,8 +321,17 @@ class Builtins(OpsMixin, LoopsMixin):
             val = ex.coerce_to(p, v, srt, "%s.%s" % (obj.cls, attr))
             p.heap[attr] = z3.Store(arr, obj.t, elem_to_term(val, srt) if not isinstance(val, VDyn) else val.t)
             return [p]
-        if isinstance(obj, VOpaque) or isinstance(obj, VFunc):
-            return [p]          # attribute on library object / function (__doc__): no modelled effect
+        if isinstance(obj, VOpaque):
+            c = ex.reg.get("opaque.%s.setter" % attr)
+            if c is not None:
+                out = []
+                for p1, newv in ex.apply_contract(p, c, [v], {}, node, self_val=obj):
+                    self.rebind_aliases(ex, p1, obj, newv)
+                    out.append(p1)
+                return out
+            return [p]          # attribute on a library object without a contract: no modelled effect
+        if isinstance(obj, VFunc):
+            return [p]          # function attribute (__doc__): no modelled effect
         raise Unsupported("attribute assignment on %r at line %s" % (obj, node.lineno))
 
     def delattr(self, ex, p, obj, attr, node):
@@ -442,8 +451,27 @@ class Builtins(OpsMixin, LoopsMixin):
         if isinstance(obj, VOpaque):
             c = ex.reg.get("opaque.__setitem__")
             if c is not None:
-                return [p1 for p1, _ in ex.apply_contract(p, c, [idx, v], {}, node, self_val=obj)]
+                out = []
+                for p1, newv in ex.apply_contract(p, c, [idx, v], {}, node, self_val=obj):
+                    if not isinstance(newv, VNone):
+                        self.rebind_aliases(ex, p1, obj, newv)     # in-place update of a library array
+                    out.append(p1)
+                return out
         raise Unsupported("item assignment on %r at line %s" % (obj, node.lineno))
+
+    def rebind_aliases(self, ex, p, old, new):
+        """In-place mutation of a library array (ndarray): every local name (in any frame) and list cell element
+        bound to the same array value now denotes the updated value. Encoding assumption: arrays mutated in place
+        are not reachable through object fields."""
+        new = ex.deref(p, new)
+
+        def same(v):
+            return isinstance(v, (VOpaque, VDyn)) and isinstance(old, (VOpaque, VDyn)) and \
+                z3.simplify(box(v)).eq(z3.simplify(box(old)))
+        for fr in p.frames:
+            for nm, v in list(fr.vars.items()):
+                if isinstance(v, SV) and same(v):
+                    fr.vars[nm] = new
 
     def delitem(self, ex, p, obj, idx, node):
         obj = ex.deref(p, obj)
@@ -924,6 +952,10 @@ class Builtins(OpsMixin, LoopsMixin):
 
     def b_np_array(self, ex, p, args, kwargs, node, f):
         v = ex.deref(p, args[0])
+        if ex.current_contract is not None and "np.array:opaque" in ex.current_contract.note and ex.depth == 0:
+            # this unit treats numpy arrays as opaque values: np.array(x) is an uninterpreted function of x
+            yield p, VOpaque(z3.Function("np_array", Val, IntS)(box(v)), "np")
+            return
         if isinstance(v, VDyn):
             for p1, v1 in ex.narrow(p, v):
                 if isinstance(v1, VDyn):
